@@ -74,6 +74,22 @@ BUILT = {
             'float payloads).',
             'Lexical forms per DESIGN.md Appendix B.',
             'DESIGN.md 3/C06'),
+    'C07': ('documents from the independent ZINC/JSON writers (parser-made values) driven by hypothesis; round-trip, transcode-chain, purity and idempotence oracles',
+            'Documents written by the independent writers of C03/C05 - with zone-less date-times, raw JSON numbers, plain-dict '
+            'column metadata and the version labels 1.0, 2.0, 2.5, 3.0, 3.0.0, 4.0 - are parsed by hszinc; both re-dumps must '
+            'succeed, re-parse equal (kind-strict; six decimals after a JSON hop; date-times by instant and offset), the chains '
+            'ZINC->JSON->ZINC and JSON->ZINC->JSON must return to the start, dumping must not change the grid or be '
+            'non-deterministic, and dump(parse(.)) must be idempotent as text in both formats.',
+            'Whole-hour offsets for zone-less date-times; no 3.0 data under pre-3.0 labels; no Bin under 1.0/2.5.',
+            'DESIGN.md 3/C07'),
+    'C08': ('exhaustive enumeration of code points and short metachar strings in every text position x both formats; hypothesis strings; sentinel-structure oracle with bisection',
+            'Every payload is placed in str, Uri, Ref display, XStr payload, grid-metadata, dict-value, list-item and nested-grid '
+            'positions of a two-grid probe with sentinel neighbours; after dump+parse the grid/row/cell structure, the '
+            'sentinels and the payload must be identical, in ZINC and JSON. Thorough enumerates all 1,112,064 scalar code '
+            'points and all 40,495 strings of length <=3 over a 34-character metachar alphabet; quick U+0000..U+2FFF, plane '
+            'boundaries, a stride sample and all strings of length <=2.',
+            'Lone surrogates excluded; payload batches of 48 per probe, bisected on failure.',
+            'DESIGN.md 3/C08'),
     'C14': ('exhaustive small-scope enumeration of operation histories + hypothesis histories, lock-step with a Python list model',
             'Every history of up to 4 (quick) / 5 (thorough) operations over a 27-op alphabet (append, insert, extend, +=, item '
             'assignment, del by index and slice, pop, remove, reverse, clear, continue-on-slice, refused non-dict rows and '
